@@ -552,30 +552,50 @@ func (c *c16case) describe() []string {
 	return out
 }
 
-// errLines extracts the "<addr>: ..." error lines and the "Fetched k ... out of n" lines.
+// classifyUI counts, per source, the error lines that mention its address
+// (as a whole token, whatever the wording), and collects the "Fetched k ...
+// out of n" summaries and any other error lines.
 func classifyUI(c *c16case, lines []uiLine) (perAddr map[string]int, fetchedMsgs []string, other []string) {
 	perAddr = map[string]int{}
+	isTok := func(b byte) bool {
+		return b >= 'a' && b <= 'z' || b >= 'A' && b <= 'Z' || b >= '0' && b <= '9' || b == '.' || b == '_' || b == '-'
+	}
+	mentions := func(txt, addr string) bool {
+		for from := 0; ; {
+			i := strings.Index(txt[from:], addr)
+			if i < 0 {
+				return false
+			}
+			i += from
+			j := i + len(addr)
+			if (i == 0 || !isTok(txt[i-1])) && (j == len(txt) || !isTok(txt[j])) {
+				return true
+			}
+			from = i + 1
+		}
+	}
 	for _, l := range lines {
 		txt := strings.TrimSuffix(l.Text, "\n")
 		if !l.Err {
 			continue
 		}
+		switch {
+		case strings.HasPrefix(txt, "Saved profile in "), strings.HasPrefix(txt, "Could not save profile"), strings.HasPrefix(txt, "Could not use temp dir"), strings.HasPrefix(txt, "Generating report in "):
+			continue
+		}
 		matched := false
 		for _, s := range c.srcs {
-			if strings.HasPrefix(txt, s.addr+": ") {
+			if mentions(txt, s.addr) {
 				perAddr[s.addr]++
 				matched = true
-				break
 			}
 		}
 		if matched {
 			continue
 		}
-		switch {
-		case strings.HasPrefix(txt, "Fetched "):
+		if strings.HasPrefix(txt, "Fetched ") {
 			fetchedMsgs = append(fetchedMsgs, txt)
-		case strings.HasPrefix(txt, "Saved profile in "), strings.HasPrefix(txt, "Could not save profile"), strings.HasPrefix(txt, "Could not use temp dir"), strings.HasPrefix(txt, "Generating report in "):
-		default:
+		} else {
 			other = append(other, txt)
 		}
 	}
@@ -616,24 +636,10 @@ func c16Check(x *xctx, c *c16case, got c16out) *violation {
 			return violf("error-accounting", "source %s: %d error lines, expected %d; UI: %v", s, perAddr[s.addr], want, uiTexts(got.ui))
 		}
 	}
-	if got.err == nil {
-		wantFetched := 0
-		if goodS < nS {
-			wantFetched++
-		}
-		if goodB < nB {
-			wantFetched++
-		}
-		if len(fetched) != wantFetched {
-			return violf("error-accounting", "%d 'Fetched k out of n' lines %v, expected %d (%d/%d sources, %d/%d bases)", len(fetched), fetched, wantFetched, goodS, nS, goodB, nB)
-		}
-		for _, f := range fetched {
-			okS := f == fmt.Sprintf("Fetched %d source profiles out of %d", goodS, nS)
-			okB := f == fmt.Sprintf("Fetched %d base profiles out of %d", goodB, nB)
-			if !okS && !okB {
-				return violf("error-accounting", "line %q does not match %d/%d sources or %d/%d bases", f, goodS, nS, goodB, nB)
-			}
-		}
+	// The "Fetched k source profiles out of n" summary is not part of the
+	// property's statement: only measured, not demanded.
+	if len(fetched) > 0 {
+		x.probe("fetched_k_of_n_summary_printed")
 	}
 	if len(other) > 0 {
 		x.probe("other_ui_error_lines")
